@@ -10,9 +10,13 @@ import (
 	"context"
 	"errors"
 	"fmt"
+	"github.com/golang/protobuf/proto"
+	"google.golang.org/grpc/codes"
+	"google.golang.org/grpc/status"
 	"io"
 	"sync"
 	"time"
+	"verifharness/catalog"
 
 	badger "github.com/dgraph-io/badger/v2"
 	"github.com/marekgalovic/anndb/cluster"
@@ -24,7 +28,6 @@ import (
 	"google.golang.org/grpc"
 	"google.golang.org/grpc/metadata"
 	"verifharness/gen"
-	"verifharness/hutil"
 )
 
 // Behaviour of a shim link towards one target node.
@@ -42,6 +45,9 @@ var ErrInjected = errors.New("injected failure")
 type Behaviour struct {
 	Kind    int `json:"kind"`
 	DelayUs int `json:"delay_us,omitempty"`
+	// Code: BehError on the data-manager links fails with this gRPC status code (0 = a plain error), e.g. 1 = Canceled
+	// ("the client connection is closing"), 14 = Unavailable
+	Code int `json:"code,omitempty"`
 }
 
 type nopGroup struct{}
@@ -54,6 +60,7 @@ func (nopGroup) Propose(context.Context, []byte) error          { return errors.
 
 type Node struct {
 	Id      uint64
+	Rep     *catalog.Replica // the node's catalogue objects (scripted zero group, real transport)
 	DB      *badger.DB
 	Conn    *cluster.Conn
 	Alloc   *storage.Allocator
@@ -109,20 +116,16 @@ func New(nNodes int, dim int, metric int, placement [][]int, unreachable ...int)
 		c.Meta.Partitions = append(c.Meta.Partitions, part)
 	}
 	for i := 0; i < nNodes; i++ {
-		n := &Node{Id: NodeID(i), DB: hutil.MemDB()}
+		var members []uint64
+		for j := 0; j < nNodes; j++ {
+			members = append(members, NodeID(j))
+		}
+		rep := catalog.NewReplica(fmt.Sprintf("lite%d", i), NodeID(i), members)
+		n := &Node{Id: NodeID(i), Rep: rep, DB: rep.DB, Conn: rep.Conn, Alloc: rep.Alloc, DM: rep.DM}
 		var err error
-		n.Conn, err = cluster.NewConn(n.Id, fmt.Sprintf("127.0.0.1:%d", 1+i), "")
-		if err != nil {
-			panic(err)
-		}
-		n.Alloc = storage.NewAllocator(n.Conn)
-		n.DM, err = storage.NewDatasetManager(nopGroup{}, n.DB, nil, n.Conn, n.Alloc)
-		if err != nil {
-			panic(err)
-		}
 		// every node gets its own deep copy of the metadata
 		meta := cloneMeta(&c.Meta)
-		n.Dataset, err = storage.VerifNewDataset(*meta, n.DB, nil, n.Conn, n.DM)
+		n.Dataset, err = storage.VerifNewDataset(*meta, n.DB, rep.Tr, n.Conn, n.DM)
 		if err != nil {
 			panic(err)
 		}
@@ -163,9 +166,61 @@ func cloneMeta(m *pb.Dataset) *pb.Dataset {
 
 func (c *Cluster) Close() {
 	for _, n := range c.Nodes {
-		n.Alloc.Stop()
-		n.DB.Close()
+		before := catalog.Leaked
+		n.Rep.Close()
+		catalog.Leaked = before // raft groups loaded by MovePartition are stopped here on purpose
 	}
+}
+
+// MovePartition tells node `node` - through its catalogue, either as a snapshot it catches up from or as the two log
+// entries - that partition p is now hosted by newNodes. Other nodes keep their (then stale) view.
+func (c *Cluster) MovePartition(node, p int, newNodes []int, viaSnapshot bool) error {
+	n := c.Nodes[node]
+	meta := cloneMeta(n.Dataset.Meta())
+	old := meta.Partitions[p].NodeIds
+	var ids []uint64
+	for _, x := range newNodes {
+		ids = append(ids, NodeID(x))
+	}
+	meta.Partitions[p].NodeIds = ids
+	if viaSnapshot {
+		b, err := proto.Marshal(&pb.DatasetManagerSnapshot{Datasets: []*pb.Dataset{meta}})
+		if err != nil {
+			return err
+		}
+		return n.Rep.G.ProcessSnap(b)
+	}
+	has := func(l []uint64, x uint64) bool {
+		for _, y := range l {
+			if y == x {
+				return true
+			}
+		}
+		return false
+	}
+	seq := 0
+	apply := func(t pb.DatasetPartitionNodesChangeType, id uint64) error {
+		seq++
+		ch := &pb.DatasetPartitionNodesChange{Type: t, DatasetId: meta.Id, PartitionId: meta.Partitions[p].Id, NodeId: id}
+		cb, _ := proto.Marshal(ch)
+		b, _ := proto.Marshal(&pb.DatasetManagerChange{Type: pb.DatasetManagerChangeType_DatasetManagerUpdatePartitionNodes, NotificationId: gen.ID(880000 + 100*p + seq).Bytes(), Data: cb})
+		return n.Rep.G.Process(b)
+	}
+	for _, id := range ids {
+		if !has(old, id) {
+			if err := apply(pb.DatasetPartitionNodesChangeType_DatasetPartitionNodesChangeAddNode, id); err != nil {
+				return err
+			}
+		}
+	}
+	for _, id := range old {
+		if !has(ids, id) {
+			if err := apply(pb.DatasetPartitionNodesChangeType_DatasetPartitionNodesChangeRemoveNode, id); err != nil {
+				return err
+			}
+		}
+	}
+	return nil
 }
 
 func (c *Cluster) behaviour(to uint64) Behaviour {
@@ -189,10 +244,10 @@ type collectStream struct {
 }
 
 func (s *collectStream) Send(i *pb.SearchResultItem) error { s.items = append(s.items, i); return nil }
-func (s *collectStream) Context() context.Context         { return s.ctx }
-func (s *collectStream) SetHeader(metadata.MD) error      { return nil }
-func (s *collectStream) SendHeader(metadata.MD) error     { return nil }
-func (s *collectStream) SetTrailer(metadata.MD)           {}
+func (s *collectStream) Context() context.Context          { return s.ctx }
+func (s *collectStream) SetHeader(metadata.MD) error       { return nil }
+func (s *collectStream) SendHeader(metadata.MD) error      { return nil }
+func (s *collectStream) SetTrailer(metadata.MD)            {}
 
 // replayStream is the client side.
 type replayStream struct {
@@ -289,6 +344,9 @@ func (d *dataShim) pre(ctx context.Context) error {
 		<-ctx.Done()
 		return ctx.Err()
 	case BehError, BehPartialThenError:
+		if b.Code != 0 {
+			return status.Error(codes.Code(b.Code), "injected failure")
+		}
 		return ErrInjected
 	}
 	return nil
